@@ -259,7 +259,8 @@ class Sem(object):
                         add(n.c[1], n)
                     continue
                 if n.k == 'call' and n.get('member'):
-                    if not cal.get('sig', '').endswith(' const') and cal.get('kind') != 'conv':
+                    if not cal.get('sig', '').endswith(' const') and cal.get('kind') != 'conv' and \
+                            cal.get('name') not in ('begin', 'end', 'rbegin', 'rend', 'data', 'front', 'back', 'at', 'get', 'find', 'lower_bound', 'upper_bound'):
                         add(n.c[0], n)
                 ptypes = split_sig(cal.get('sig', '()'))
                 if cal.get('q') in ('std::make_shared', 'std::allocate_shared'):
